@@ -155,7 +155,13 @@ func ip4u(ip net.IP) uint32 {
 func defaultIfaces(n int) []simrt.Iface {
 	var r []simrt.Iface
 	for i := 1; i <= n; i++ {
-		r = append(r, simrt.Iface{Index: i + 1, Name: fmt.Sprintf("sim%d", i), MAC: net.HardwareAddr{0x02, 0, 0, 0, 0, byte(i)}, Flags: net.FlagUp | net.FlagBroadcast | net.FlagMulticast, MTU: 1500})
+		r = append(r, simrt.Iface{Index: i + 1, Name: fmt.Sprintf("sim%d", i), MAC: net.HardwareAddr{0x02, 0, 0, 0, 0, byte(i)}, Flags: net.FlagUp | net.FlagBroadcast | net.FlagMulticast, MTU: 1500,
+			Addrs: []net.IP{ifaceAddr4(i + 1), ifaceAddr6(i + 1), ifaceLL6(i + 1)}})
 	}
 	return r
 }
+
+// addresses configured on the simulated interface with the given index
+func ifaceAddr4(index int) net.IP { return net.IP{10, 0, byte(index - 2), 1}.To4() }
+func ifaceAddr6(index int) net.IP { return net.ParseIP(fmt.Sprintf("2001:db8:%x::1", index)) }
+func ifaceLL6(index int) net.IP   { return net.ParseIP(fmt.Sprintf("fe80::%x", index)) }
